@@ -32,6 +32,14 @@ case kinds
          transport.write calls and the serial counter.  Correspondence: Model/FdFraming.v call_remote.
          Oracle: Spec/FdSpec.v send_spec (descriptors in argument order, then the specification encoding of
          the message with UNIX_FDS = their number).
+  sendseq : a HISTORY of transmissions: 1-3 method-call message objects (built once each, oobFDs=[]) and a plan
+         [[message, connection] ...] of sendMessage calls over 1-2 connections, in which a message object may be
+         transmitted several times (a retry, the same call issued on a second connection) and transmissions of
+         different messages interleave.  Observed: per connection the sequence of transport.sendFileDescriptor /
+         transport.write calls.  Correspondence: Model/FdFraming.v call_remote per message (sendMessage is a
+         function of the message alone), concatenated along the plan.  Oracle: Spec/FdSpec.v send_spec of the
+         message for EVERY transmission ("the sender transmits a message's descriptors in argument order ahead
+         of its bytes"), concatenated along the plan.
 """
 import itertools
 
@@ -45,6 +53,9 @@ ASSUMPTIONS = [
     'the arrival discipline (descriptors in sending order, each delivered by fileDescriptorReceived before the dataReceived carrying the final byte of its message) is the hypothesis named in the property; how the kernel / Twisted attach descriptors to bytes (one per write) is below the observation point',
     'the four message callbacks are passive observers (they do not raise and do not touch the queue)',
     'DBusMessage._nextSerial is read before every send and given to the model',
+    'sendseq: every transmission of a message object is a transmission of that message in the property\'s sense (a message '
+    'object is an immutable value once built: its serial, bytes and descriptors are fixed at construction), so each one must '
+    'put the message\'s descriptors, in argument order, ahead of its bytes; descriptor values differ between the messages of a history',
     'Python nesting recursion is the model\'s fuel (never exhausted on the generated sizes)',
 ]
 
@@ -345,6 +356,8 @@ def gen_cases(ctx):
         yield c
     for i in range(ctx.n(700, 20000)):
         yield gen_send(rng, i)
+    for c in gen_sendseq(ctx):
+        yield c
     # the same descriptor given for several UNIX_FD arguments of one call
     for via in ('sendMessage', 'callRemote'):
         for ts, ws, fdv in ((['h', 'h'], [0, 1], [5, 5]),
@@ -440,6 +453,42 @@ def gen_send(rng, i):
         fields['destination'] = rng.choice(VAL[6])
     return {'kind': 'send', 'fields': fields, 'er': rng.random() < 0.6, 'au': rng.random() < 0.7, 'body': body,
             'shape': rng.randrange(1 << 30), 'via': rng.choice(['sendMessage', 'callRemote']), 'nfds': k}
+
+
+def gen_sendseq(ctx):
+    """histories of transmissions (see the module docstring)"""
+    rng = ctx.rng
+
+    def msg(k=None):
+        m = gen_send(rng, 0)
+        if k is not None:
+            m['nfds'] = k
+            m['body'] = fd_body(rng, k, depth=rng.choice([1, 2]))
+        del m['kind'], m['via']
+        return m
+
+    def case(label, msgs, plan):
+        return {'kind': 'sendseq', 'label': label, 'msgs': msgs, 'plan': plan,
+                'nconn': 1 + max(c for _, c in plan)}
+
+    # directed: one message with 1..3 descriptors transmitted twice / three times, on one and on two connections,
+    # alone and with another message before, between and after
+    for k in (1, 2, 3):
+        for plan in ([[0, 0], [0, 0]], [[0, 0], [0, 1]], [[0, 0], [0, 0], [0, 0]], [[0, 0], [0, 1], [0, 0]]):
+            yield case('again%d' % k, [msg(k)], plan)
+        for k2 in (0, 1, 2):
+            for plan in ([[0, 0], [1, 0], [0, 0]], [[0, 0], [0, 0], [1, 0]], [[1, 0], [0, 0], [0, 0]],
+                         [[0, 0], [1, 0], [1, 0], [0, 0]], [[0, 0], [1, 1], [0, 1], [1, 0]]):
+                yield case('again%d-other%d' % (k, k2), [msg(k), msg(k2)], plan)
+    for _ in range(ctx.n(150, 4000)):
+        n = rng.choice([1, 2, 2, 3])
+        msgs = [msg(rng.choice([None, 1, 2, 3])) for _ in range(n)]
+        nconn = rng.choice([1, 1, 2])
+        plan = [[rng.randrange(n), rng.randrange(nconn)] for _ in range(rng.randrange(1, 7))]
+        if rng.random() < 0.7:
+            # at least one message goes out again
+            plan.insert(rng.randrange(len(plan) + 1), [plan[0][0], rng.randrange(nconn)])
+        yield case('rnd', msgs, plan)
 
 
 def expand(ctx, c, wires):
@@ -995,6 +1044,129 @@ def evaluate(ctx, cases, res):
         if c['nfds'] >= 2:
             bump('send_multi_fd')
 
+    # ---- histories of transmissions ------------------------------------------------------------------
+    seqs = [c for c, _ in concrete if c['kind'] == 'sendseq']
+    if seqs:
+        evaluate_sendseq(seqs, res, bump, P, FakeTransport)
+
+
+def ints_in(v, lo, hi):
+    """how many integer leaves (dict keys included, bools excluded) of a Python body value lie in [lo, hi)"""
+    if isinstance(v, bool):
+        return 0
+    if isinstance(v, int):
+        return 1 if lo <= v < hi else 0
+    if isinstance(v, (list, tuple)):
+        return sum(ints_in(x, lo, hi) for x in v)
+    if isinstance(v, dict):
+        return sum(ints_in(k, lo, hi) + ints_in(x, lo, hi) for k, x in v.items())
+    return 0
+
+
+def subst_ints(v, lo, table):
+    if isinstance(v, bool):
+        return v
+    if isinstance(v, int):
+        return table[v - lo] if lo <= v < lo + len(table) else v
+    if isinstance(v, list):
+        return [subst_ints(x, lo, table) for x in v]
+    if isinstance(v, tuple):
+        return tuple(subst_ints(x, lo, table) for x in v)
+    if isinstance(v, dict):
+        return {subst_ints(k, lo, table): subst_ints(x, lo, table) for k, x in v.items()}
+    return v
+
+
+def evaluate_sendseq(cases, res, bump, P, FakeTransport):
+    """histories of transmissions: every transmission of a message is judged on its own"""
+    from txdbus import message, marshal
+    prepared = []
+    for c in cases:
+        built = []
+        for k, m in enumerate(c['msgs']):
+            sig, vals = send_values(m, marshal)
+            if m['body'] is not None and vals is None:
+                built = None
+                break
+            fdv = [100 + j for j in range(m['nfds'])]
+            if vals is not None and m['nfds'] and ints_in(vals, 100, 100 + m['nfds']) == m['nfds']:
+                # the integers 100.. in the value are exactly its descriptors: give this message its own
+                fdv = [1000 * (k + 1) + j for j in range(m['nfds'])]
+                vals = subst_ints(vals, 100, fdv)
+            built.append((m, sig, vals, fdv))
+        if built is None:
+            bump('sendseq_nonconforming_shape_skipped')
+            continue
+        prepared.append((c, built))
+    lines, slines, runs = [], [], []
+    for c, built in prepared:
+        objs, failed = [], False
+        for m, sig, vals, fdv in built:
+            f = m['fields']
+            serial0 = message.DBusMessage._nextSerial
+            try:
+                objs.append(message.MethodCallMessage(f.get('path'), f.get('member'), interface=f.get('interface'),
+                                                      destination=f.get('destination'), signature=sig, body=vals,
+                                                      expectReply=m['er'], autoStart=m['au'], oobFDs=[]))
+            except Exception:
+                objs.append(None)
+            body_form = [5, [mc.pv_form(v) for v in vals]] if vals is not None else [10]
+            lines.append('(20 4 %d %d %s %s %d)' % (m['er'], m['au'], common.dump(model_attrs(f, sig)),
+                                                    common.dump(body_form), serial0))
+            fields = [[CODE[a], FIELD_TY[CODE[a]], v] for a, v in sorted(f.items(), key=lambda kv: CODE[kv[0]])]
+            if sig is not None:
+                fields.append([8, 'g', sig])
+            sm = {'le': True, 'mt': 1, 'flags': (0 if m['er'] else 1) + (0 if m['au'] else 2), 'serial': serial0,
+                  'fields': fields, 'body': m['body'], 'fds': fdv}
+            slines.append('(20 5 %s)' % common.dump(msg_sexp(sm)))
+        conns = []
+        for _ in range(c['nconn']):
+            p = P()
+            p.transport = FakeTransport()
+            conns.append(p)
+        for mi, ci in c['plan']:
+            if objs[mi] is None:
+                failed = True
+                break
+            try:
+                conns[ci].sendMessage(objs[mi])
+            except Exception:
+                failed = True
+                break
+        runs.append((failed, [[[0, mc.pv_form(x[1])] if x[0] == 0 else [x[0], x[1]] for x in p.transport.calls]
+                              for p in conns]))
+    mo = common.run_model(lines)
+    so = common.run_model(slines)
+    pos = 0
+    for (c, built), (failed, calls) in zip(prepared, runs):
+        n = len(built)
+        mos, sos = mo[pos:pos + n], so[pos:pos + n]
+        pos += n
+        times = [sum(1 for mi, _ in c['plan'] if mi == k) for k in range(n)]
+        res.count(c, nontrivial=any(t >= 2 and built[k][0]['nfds'] >= 1 for k, t in enumerate(times)))
+        bump('sendseq_cases')
+        bump('sendseq_retransmissions', sum(t - 1 for t in times if t >= 2))
+        impl = ['err'] if failed else ['ok', calls]
+        if all(o[0] == 1 for o in mos):
+            model = ['ok', [[[x[0], x[1]] for mi, ci in c['plan'] if ci == k for x in mos[mi][1]]
+                            for k in range(c['nconn'])]]
+        else:
+            model = ['err']
+        if impl != model and not (impl[0] == 'err' and model[0] == 'err'):
+            res.disagree(c, impl, model)
+        want = ['ok', [[[x[0], x[1]] for mi, ci in c['plan'] if ci == k for x in sos[mi]]
+                       for k in range(c['nconn'])]]
+        if impl != want:
+            if impl[0] != 'ok':
+                why = 'a transmission failed'
+            else:
+                k = next(i for i in range(c['nconn']) if impl[1][i] != want[1][i])
+                short = lambda cs: [x[1] if x[0] == 0 else 'bytes' for x in cs]
+                why = ('connection %d: the transport was handed %r; every transmission of a message puts its descriptors, '
+                       'in argument order, ahead of its bytes: %r (plan %r)'
+                       % (k, short(impl[1][k]), short(want[1][k]), c['plan']))
+            res.violate(c, why, 'send:history-descriptors-order-count-or-bytes')
+
 
 def classify_recv(got, want):
     gd = [x for x in got[0] if x[0] == 1]
@@ -1033,7 +1205,10 @@ def run(ctx, res):
                 'prefixes, empty reads, one byte per read; hostile sequences (index beyond the own count, UNIX_FDS absent / 0 / '
                 'too small / too large / negative / of another type), stray and late descriptors, corrupted bytes '
                 '(correspondence only outside the hypotheses).  send: method calls with 0-4 UNIX_FD arguments nested in '
-                'containers, random Python shapes, via sendMessage and via callRemote.  Non-trivial: a recv case with at '
-                'least one descriptor event and one delivery; a send case with at least one descriptor')
+                'containers, random Python shapes, via sendMessage and via callRemote; histories of 1-7 '
+                'transmissions of 1-3 message objects over 1-2 connections in which a message object goes out more than once '
+                '(every transmission judged against send_spec).  Non-trivial: a recv case with at '
+                'least one descriptor event and one delivery; a send case with at least one descriptor; a history in which '
+                'a message with descriptors is transmitted at least twice')
     evaluate(ctx, gen_cases(ctx), res)
     res.exhaustive = not res.extra.get('exhaustive_plans_capped', False)
